@@ -2,6 +2,7 @@ package gen
 
 import (
 	"fmt"
+	"strings"
 
 	. "verif/harness/jsonx"
 )
@@ -79,7 +80,17 @@ func GenWPlusCase(d *D, cfg BundleCfg, allowed []string) *WPlusCase {
 		applied := true //nolint
 		switch kind {
 		case "dangling-local-definition":
-			holderPath(root, i, O{"$ref": "#/definitions/nope"})
+			name := "nope"
+			if ks := SortedKeys(Obj(root["definitions"])); len(ks) > 0 && d.Bool() {
+				// a name that differs from an existing definition by letter case only
+				k := d.Pick(ks)
+				if up := strings.ToUpper(k); up != k && Obj(root["definitions"])[up] == nil {
+					name = up
+				} else if lo := strings.ToLower(k); lo != k && Obj(root["definitions"])[lo] == nil {
+					name = lo
+				}
+			}
+			holderPath(root, i, O{"$ref": Frag("definitions", name)})
 		case "dangling-remote-file":
 			holderPath(root, i, O{"$ref": "missing.json#/definitions/x"})
 		case "dangling-remote-fragment":
